@@ -844,7 +844,7 @@ func init() {
 
 func init() {
 	register(&Rule{
-		ID: "C02.R12", Props: []string{"C02", "C05", "C20"}, Min: 1,
+		ID: "C02.R12", Props: []string{"C02", "C05", "C20", "C12"}, Min: 1,
 		Doc: "input is read whole or refused, never cut: nowhere in the engine, the loader, the formatter or the Markdown renderer is template / document input read through a length-limiting wrapper (io.LimitReader, io.LimitedReader, io.CopyN, a fixed-size Read) — a limit that silently truncates turns an oversized template into a shorter, well-formed-looking one: everything after the cut is missing from the output and no error says so",
 		Run: func(p *Prog, c *Ctx) {
 			n := 0
